@@ -133,12 +133,21 @@ pub fn step_strategy() -> BoxedStrategy<StepCase> {
         3 => (-2i8..=2).prop_map(AmtSel::NearCost),
         3 => (-2i8..=2).prop_map(AmtSel::NearGross),
     ];
-    (gen::sqrt_price(), gen::bits_u128(128), gen::fee_rate(100_000), any::<bool>(), amt, any::<bool>())
-        .prop_flat_map(|(p0, liq, fee, exact_in, amt, flag)| {
+    // liquidity: by magnitude, or the inverse image of a whole-segment token amount on a boundary of the u64 result type
+    let liq_target = prop_oneof![4 => Just(None), 1 => (any::<bool>(), 0usize..AMOUNT_TARGETS.len(), any::<u32>()).prop_map(Some)];
+    (gen::sqrt_price(), gen::bits_u128(128), gen::fee_rate(100_000), any::<bool>(), amt, any::<bool>(), liq_target)
+        .prop_flat_map(|(p0, liq, fee, exact_in, amt, flag, lt)| {
             let tgt = prop_oneof![12 => gen::target_price(p0), 1 => Just(p0)];
-            (Just((p0, liq, fee, exact_in, amt, flag)), tgt)
+            (Just((p0, liq, fee, exact_in, amt, flag, lt)), tgt)
         })
-        .prop_map(|((p0, liq, fee, exact_in, amt, flag), p1)| {
+        .prop_map(|((p0, liq, fee, exact_in, amt, flag, lt), p1)| {
+            let liq = match lt {
+                Some((token_a, ti, frac)) if p0 != p1 => {
+                    let (lo, hi) = (p0.min(p1), p0.max(p1));
+                    liquidity_for_amount(if token_a { lo } else { hi }, lo, hi, token_a, AMOUNT_TARGETS[ti], frac).unwrap_or(liq)
+                }
+                _ => liq,
+            };
             let a_to_b = if p1 == p0 { flag } else { p1 < p0 };
             let fixed_is_a = a_to_b == exact_in;
             let (n, d) = if fixed_is_a { a_frac(liq, p0, p1) } else { b_frac(liq, p0, p1) };
@@ -165,7 +174,8 @@ pub fn def() -> CheckDef {
         id: "C02",
         rule: "compute_swap on generated (amount, fee rate 0..=100000, liquidity with uniform bit length 0..=128, current/target sqrt-price pairs \
                incl. tick boundaries ±2 units, near-equal pairs and the protocol bounds; amounts incl. the exact bigint cost of reaching the target \
-               ±2 and that cost grossed up by the fee ±2).  Oracle: exact rational curve amounts (BigUint), rounding direction, one-unit tightness, \
+               ±2 and that cost grossed up by the fee ±2; one liquidity in five is the exact inverse image of a whole-segment token amount on a boundary \
+               of the u64 result type).  Oracle: exact rational curve amounts (BigUint), rounding direction, one-unit tightness, \
                budget consumption.  Non-trivial = Ok result with L>0 and a price move; distinct = hash of all inputs.",
         assumptions: vec![
             "only Ok results are constrained (the property says so)",
